@@ -18,6 +18,7 @@ Definition pair_okb (p : Z * (Z * Z) * (Z * Z)) : bool :=
   | EvChan k1 PUSH (Some x1) n1, EvChan k2 POP (Some x2) n2 => Nat.eqb k1 k2 && (x1 =? x2) && (n1 =? n2)
   | EvChan k1 SET (Some _) _, EvChan k2 SET None _ => Nat.eqb k1 k2
   | EvNop, EvNop => true
+  | EvChan _ IGN _ n1, EvChan _ IGN _ n2 => n1 =? n2     (* a pair the model deliberately ignores (6t[ 6t], PBs PBS) *)
   | _, _ => false
   end.
 Definition pairs_okb : bool := forallb pair_okb Tables_gen.evpairs.
